@@ -5,7 +5,17 @@ from pyparsing import *
 
 def _grammar():
   from pyparsing import pyparsing_common
-  number = pyparsing_common.number
+  # Integers, reals and reals in scientific notation as accepted by pyparsing_common.number, with two provisos:
+  # a number ends where its text ends ('1.2.3' is not the two numbers 1.2 and .3) and a literal that
+  # overflows to infinity (1e999) is not a number a potential can be parametrised with.
+  def convert(tokens):
+    import re
+    text = tokens[0]
+    value = int(text) if re.match(r"^[+-]?\d+$", text) else float(text)
+    if value in (float("inf"), float("-inf")):
+      raise ParseException("number out of range: {}".format(text))
+    return value
+  number = Regex(r"[+-]?(?:\d+\.\d*|\.\d+|\d+)(?:[eE][+-]?\d+)?(?![.0-9])").setParseAction(convert)
   identifier = Combine(pyparsing_common.identifier+ZeroOrMore(Literal(".")+pyparsing_common.identifier))
 
   # multi_range
